@@ -55,8 +55,12 @@ func (vc *FnVC) instr(in ssa.Instruction) {
 		lv := vc.lvOf(x.Addr)
 		vc.cur = vc.storeLV(lv, vc.cur, vc.val(x.Val))
 	case *ssa.FieldAddr:
-		// lazily handled by lvOf; nil check
-		vc.safety("nil", app("not", app("=", vc.val(x.X), "0")), x.Pos(), "field address of nil pointer")
+		// lazily handled by lvOf; nil check (addresses derived from other addresses are never nil)
+		switch x.X.(type) {
+		case *ssa.FieldAddr, *ssa.IndexAddr, *ssa.Alloc:
+		default:
+			vc.safety("nil", app("not", app("=", vc.val(x.X), "0")), x.Pos(), "field address of nil pointer")
+		}
 	case *ssa.IndexAddr:
 		idx := vc.val(x.Index)
 		switch xt := x.X.Type().Underlying().(type) {
@@ -220,6 +224,7 @@ func (vc *FnVC) unop(x *ssa.UnOp) {
 			return
 		}
 		vc.setVal(x, vc.loadLV(lv, vc.cur))
+		vc.assumeLoaded(vc.vals[x], x.Type())
 	case token.NOT:
 		vc.setVal(x, not(vc.val(x.X)))
 	case token.SUB:
@@ -344,7 +349,11 @@ func (vc *FnVC) sliceOp(x *ssa.Slice) {
 			vc.safety("slice", app("<=", mx, app("scap", s)), x.Pos(), "slice max within capacity")
 		}
 		vc.safety("slice", and(app("<=", "0", lo), app("<=", lo, hi), app("<=", hi, mx)), x.Pos(), "slice bounds in range")
-		vc.setVal(x, app("mkslice", app("sref", s), app("+", app("soff", s), lo), app("-", hi, lo), app("-", mx, lo)))
+		off := app("at", app("soff", s), lo)
+		if lo == "0" {
+			off = app("soff", s)
+		}
+		vc.setVal(x, app("mkslice", app("sref", s), off, app("-", hi, lo), app("-", mx, lo)))
 	case *types.Pointer:
 		at := xt.Elem().Underlying().(*types.Array)
 		n := fmt.Sprint(at.Len())
@@ -680,4 +689,19 @@ func (vc *FnVC) loopInner(b *ssa.BasicBlock) bool {
 		}
 	}
 	return false
+}
+
+// assumeLoaded: type invariants every Go value of this type satisfies (sound for values read from the heap).
+func (vc *FnVC) assumeLoaded(t Term, ty types.Type) {
+	switch u := ty.Underlying().(type) {
+	case *types.Slice:
+		vc.assume("true", and(app(">=", app("slen", t), "0"), app(">=", app("scap", t), app("slen", t)), app(">=", app("soff", t), "0"), app(">=", app("sref", t), "0"),
+			implies(app("=", app("sref", t), "0"), and(app("=", app("slen", t), "0"), app("=", app("scap", t), "0")))))
+	case *types.Pointer, *types.Map, *types.Chan:
+		vc.assume("true", app(">=", t, "0"))
+	case *types.Basic:
+		if u.Info()&types.IsUnsigned != 0 {
+			vc.assume("true", app(">=", t, "0"))
+		}
+	}
 }
